@@ -182,31 +182,31 @@ package core
 //@   modifies[;profile=any] st.Bs
 //@   writes[C12] st.Bs
 //@   ensures total: err == nil && walked != nil && fresh(walked)
-//@   ensures[C05] bound: len(walked.Strides) <= limitOf(c)
-//@   ensures[C05] remaining: (walked.StoppedBecause == Limited || walked.StoppedBecause == BreakpointReached) ==> suffixOf(walked.Remaining, pendings)
-//@   ensures[C05] done: walked.StoppedBecause == Done ==> len(walked.Remaining) == 0 && len(walked.Strides) > 0 && walked.Strides[len(walked.Strides)-1].To == nil
-//@   ensures[C05] reason: walked.StoppedBecause == Done || walked.StoppedBecause == Limited || walked.StoppedBecause == BreakpointReached
-//@   ensures[C05] order: forall j int :: 0 <= j && j < len(walked.Strides) && walked.Strides[j].Consumed != nil ==> 0 <= kappa(j) && kappa(j) < len(pendings) && walked.Strides[j].Consumed == old(pendings[kappa(j)])
-//@   ensures[C05] inorder: (len(walked.Strides) > 0 ==> kappa(0) == 0) && forall j rawint :: 0 <= j && j + 1 < len(walked.Strides) ==> kappa(j + 1) == kappa(j) + (walked.Strides[j].Consumed != nil ? 1 : 0)
-//@   ensures[C05] exactrest: (walked.StoppedBecause == Limited || walked.StoppedBecause == BreakpointReached) ==>
+//@   ensures[C05;profile=pure] bound: len(walked.Strides) <= limitOf(c)
+//@   ensures[C05;profile=pure] remaining: (walked.StoppedBecause == Limited || walked.StoppedBecause == BreakpointReached) ==> suffixOf(walked.Remaining, pendings)
+//@   ensures[C05;profile=pure] done: walked.StoppedBecause == Done ==> len(walked.Remaining) == 0 && len(walked.Strides) > 0 && walked.Strides[len(walked.Strides)-1].To == nil
+//@   ensures[C05;profile=pure] reason: walked.StoppedBecause == Done || walked.StoppedBecause == Limited || walked.StoppedBecause == BreakpointReached
+//@   ensures[C05;profile=pure] order: forall j int :: 0 <= j && j < len(walked.Strides) && walked.Strides[j].Consumed != nil ==> 0 <= kappa(j) && kappa(j) < len(pendings) && walked.Strides[j].Consumed == old(pendings[kappa(j)])
+//@   ensures[C05;profile=pure] inorder: (len(walked.Strides) > 0 ==> kappa(0) == 0) && forall j rawint :: 0 <= j && j + 1 < len(walked.Strides) ==> kappa(j + 1) == kappa(j) + (walked.Strides[j].Consumed != nil ? 1 : 0)
+//@   ensures[C05;profile=pure] exactrest: (walked.StoppedBecause == Limited || walked.StoppedBecause == BreakpointReached) ==>
 //@                          len(pendings) - len(walked.Remaining) == (len(walked.Strides) == 0 ? 0 : kappa(len(walked.Strides) - 1) + (walked.Strides[len(walked.Strides)-1].Consumed != nil ? 1 : 0))
-//@   ensures[C05] limited: walked.StoppedBecause == Limited ==> len(walked.Strides) == limitOf(c)
+//@   ensures[C05;profile=pure] limited: walked.StoppedBecause == Limited ==> len(walked.Strides) == limitOf(c)
 //@   loop 0 invariant st != nil && c != nil && c.Limit == limitOf(old(c))
 //@   loop 0 invariant (st == old(st) && st.Bs == old(st.Bs)) || (fresh(st) && fresh(st.Bs))
 //@   loop 0 invariant fresh(walked) && (cap(walked.Strides) == 0 || fresh(walked.Strides))
-//@   loop 0 invariant[C05] steps: 0 <= i && i <= c.Limit && len(walked.Strides) == i
-//@   loop 0 invariant[C05] queue: suffixOf(pendings, old(pendings))
-//@   loop 0 invariant[C05] offs: len(pendings) > 0 ==> off(pendings) == off(old(pendings)) + len(old(pendings)) - len(pendings)
-//@   loop 0 invariant[C05] nonnil: forall j int :: 0 <= j && j < len(walked.Strides) ==> walked.Strides[j] != nil
+//@   loop 0 invariant[C05;profile=pure] steps: 0 <= i && i <= c.Limit && len(walked.Strides) == i
+//@   loop 0 invariant[C05;profile=pure] queue: suffixOf(pendings, old(pendings))
+//@   loop 0 invariant[C05;profile=pure] offs: len(pendings) > 0 ==> off(pendings) == off(old(pendings)) + len(old(pendings)) - len(pendings)
+//@   loop 0 invariant[C05;profile=pure] nonnil: forall j int :: 0 <= j && j < len(walked.Strides) ==> walked.Strides[j] != nil
 //@   loop 0 ghostfn kappa(i) = len(old(pendings)) - len(pendings)
-//@   loop 0 invariant[C05] kfirst: i == 0 ==> len(pendings) == len(old(pendings))
-//@   loop 0 invariant[C05] klast: i > 0 ==> len(old(pendings)) - len(pendings) == kappa(i - 1) + (walked.Strides[i-1].Consumed != nil ? 1 : 0)
-//@   loop 0 invariant[C05] kstep: forall j rawint :: 0 <= j && j + 1 < i ==> kappa(j + 1) == kappa(j) + (walked.Strides[j].Consumed != nil ? 1 : 0)
-//@   loop 0 invariant[C05] kzero: i > 0 ==> kappa(0) == 0
-//@   loop 0 invariant[C05] krange: forall j int :: 0 <= j && j < i && walked.Strides[j].Consumed != nil ==> 0 <= kappa(j) && kappa(j) < len(old(pendings))
+//@   loop 0 invariant[C05;profile=pure] kfirst: i == 0 ==> len(pendings) == len(old(pendings))
+//@   loop 0 invariant[C05;profile=pure] klast: i > 0 ==> len(old(pendings)) - len(pendings) == kappa(i - 1) + (walked.Strides[i-1].Consumed != nil ? 1 : 0)
+//@   loop 0 invariant[C05;profile=pure] kstep: forall j rawint :: 0 <= j && j + 1 < i ==> kappa(j + 1) == kappa(j) + (walked.Strides[j].Consumed != nil ? 1 : 0)
+//@   loop 0 invariant[C05;profile=pure] kzero: i > 0 ==> kappa(0) == 0
+//@   loop 0 invariant[C05;profile=pure] krange: forall j int :: 0 <= j && j < i && walked.Strides[j].Consumed != nil ==> 0 <= kappa(j) && kappa(j) < len(old(pendings))
 //@   loop 0 ghostfn hd(i) = len(pendings) > 0 ? 1 : 0
-//@   loop 0 invariant[C05] headat: forall j int :: 0 <= j && j < i && hd(j) == 1 ==> 0 <= kappa(j) && kappa(j) < len(old(pendings))
-//@   loop 0 invariant[C05] order: forall j int :: 0 <= j && j < i && walked.Strides[j].Consumed != nil ==> hd(j) == 1 && walked.Strides[j].Consumed == old(pendings[kappa(j)])
+//@   loop 0 invariant[C05;profile=pure] headat: forall j int :: 0 <= j && j < i && hd(j) == 1 ==> 0 <= kappa(j) && kappa(j) < len(old(pendings))
+//@   loop 0 invariant[C05;profile=pure] order: forall j int :: 0 <= j && j < i && walked.Strides[j].Consumed != nil ==> hd(j) == 1 && walked.Strides[j].Consumed == old(pendings[kappa(j)])
 //@   loop 0 decreases c.Limit - i
 
 // UpdatableSpec: the spec pointer is read and written only through sync/atomic,
